@@ -384,12 +384,24 @@ def rule_nullkey(P) -> RuleResult:
     uq = P.func(QX, 'uniquify')
     IT = Sym('ITERABLE')
     for seen in (False, True):
-        def oracle(term, ex, _s=seen):
+        tested = []
+
+        def oracle(term, ex, _s=seen, _t=tested):
             if isinstance(term, T) and term.op == 'cmp' and term.args[0] in ('in', 'not in'):
+                _t.append(term.args[1])
                 return _s if term.args[0] == 'in' else not _s
             return None
         eng = Engine(P, oracle=oracle, inline_generators=True)
         for p in eng.paths(uq, {uq.params[0]: IT}):
+            # rows are told apart by equality of the rows themselves: what is looked up and what is recorded is the row
+            el0 = T('elem', (IT,))
+            recorded = [e[2] if e[0] == 'produce' else (e[2][0] if e[2] else None) for e in p.events
+                        if e[0] == 'produce' or (e[0] == 'call' and str(e[1]).endswith('.add'))]
+            wrong = [x for x in tested + recorded if x != el0]
+            if wrong:
+                res.fail(uq.fq, 'uniquify:identity', f'DISTINCT must compare the rows themselves; uniquify looks up / records '
+                         f'`{show(wrong[0])}`: two different rows for which it coincides (hash(-1) == hash(-2)) are merged', loc(uq))
+                continue
             inner = loop_events(p, IT) or []
             ys = [e for d, e in inner if e[0] == 'yield']
             adds = [e for d, e in inner if e[0] == 'produce' or (e[0] == 'call' and str(e[1]).endswith('.add'))]
